@@ -2,7 +2,7 @@
 # usage: tools/sweep.sh <VERIF_SEED> [tier] [ids...] : run every check on the unchanged tree with another seed offset
 SEED=$1; TIER=${2:-quick}; shift; shift
 IDS=${@:-C01 C02 C03 C04 C05 C06 C07 C08 C09 C10 C11 C12 C13 C14 C15 C16 C17 C18 C19 C20}
-cd /verif; mkdir -p .work/sweep
+cd "$(dirname "$0")/.."; mkdir -p .work/sweep
 for P in $IDS; do
   S=$(date +%s)
   VERIF_SEED=$SEED ./check $P --tier $TIER > .work/sweep/${P}_${SEED}_${TIER}.log 2>&1; RC=$?
